@@ -343,8 +343,12 @@ class MonC09(Monitor):
             d = diff_snap(st.pre, st.post)
             what = "timeline" if "/slots" in d or "/eom" in d else ("refs" if "/refs" in d else "flags")
             self.tainted = True
-            fails.append(self.F("failed-call-not-atomic", f"{k} raised {st.real[1]} but changed the sequence: {d}",
-                                op=k, err=st.real[1], what=what))
+            # the model is mutation-order faithful: it reproduces the residue of the KNOWN non-atomic
+            # failures; a residue the model does not predict is something else (never matched as known)
+            agrees = not (st.model is not None and st.diverged)
+            fails.append(self.F("failed-call-not-atomic", f"{k} raised {st.real[1]} but changed the sequence: {d}"
+                                + ("" if agrees else " (not the residue the model predicts)"),
+                                op=k, err=st.real[1], what=what, model_agrees=agrees))
         # read-only operations never change it
         if k in self.READ_ONLY and st.real[0] == "ok" and st.pre != st.post:
             fails.append(self.F("query-not-pure", f"{k} changed the sequence", op=k))
